@@ -1174,6 +1174,14 @@ class tensor_stubs:
             return mfun('inv', A)
         self._inv = jnp.linalg.inv
         patch(jnp.linalg, 'inv', inv3)
+        self._solve = jnp.linalg.solve
+
+        def solve3(A, B):
+            A = jnp.asarray(A)
+            if A.shape == (3, 3):
+                return inv3(A) @ jnp.asarray(B)          # solve(A, B) = A^{-1} B (exact)
+            return self._solve(A, B)
+        patch(jnp.linalg, 'solve', solve3)
         self._det = jnp.linalg.det
 
         def det3(A):
